@@ -166,6 +166,78 @@ def rule_send(rep):
         rep.ob(R, "witness-run", False, "no witness results: %s" % out[-600:], "witness/")
 
 
+UNINIT = re.compile(r"(^|::)(set_len|assume_init(_ref|_mut|_read)?|uninit(_array)?|uninitialized|from_raw_parts(_mut)?|from_raw_parts_in|alloc|alloc_zeroed|realloc|"
+                    r"spare_capacity_mut|transmute|transmute_copy|read_unaligned|read_volatile)$")
+
+
+def rule_uninit(rep, pdoc):
+    """Memory whose content is not determined by the instance's history: uninitialised storage (set_len over reserved capacity,
+    MaybeUninit::assume_init, raw allocation), reinterpretation of raw memory.  Decided on the type-resolved call sites of rubato's own
+    bodies (MIR, mode P) and, for code not compiled on this host, on the syntax tree."""
+    R = "R-C18-uninit"
+    facts = rep.ctx.facts
+    nb = nc = 0
+    for b in pdoc["bodies"]:
+        if "::tests::" in b["path"] or b["path"].startswith("tests::"):
+            continue
+        nb += 1
+        for c in b["calls"]:
+            nc += 1
+            callee = re.sub(r"::<.*?>", "", c.get("callee", ""))
+            if c.get("exp"):
+                continue
+            if UNINIT.search(callee) and ("MaybeUninit" in callee or "Vec" in callee or "alloc::" in callee or "mem::" in callee or "slice::" in callee or "ptr::" in callee or "intrinsics" in callee):
+                rep.ob(R, "%s -> %s" % (b["path"], callee), False,
+                       "`%s` hands out storage whose content is not written by this instance (uninitialised or reinterpreted memory): anything later read from it depends on what the allocator "
+                       "recycled, i.e. on other instances and threads" % callee, c.get("span", "src/"))
+    n_ast = 0
+    for qual, fn in facts.all_fns():
+        if not fn.get("body"):
+            continue
+        for x in walk(fn["body"]):
+            name = x["name"] if x.get("k") == "mcall" else (x["f"]["p"].split("::")[-1].split("<")[0] if x.get("k") == "call" and ir.is_path(x["f"]) else None)
+            if name in ("set_len", "assume_init", "uninitialized", "from_raw_parts", "from_raw_parts_mut", "spare_capacity_mut", "transmute") or \
+                    (x.get("k") == "call" and ir.is_path(x["f"]) and "MaybeUninit" in x["f"]["p"]):
+                n_ast += 1
+                rep.ob(R, "ast/%s/%s" % (qual, name), False, "`%s` in %s: storage not initialised by this instance" % (show(x)[:60], qual), loc(fn, x))
+    # positive control: the call listing works (the crate's known unchecked accesses are seen)
+    gu = sum(1 for b in pdoc["bodies"] for c in b["calls"] if "get_unchecked" in c.get("callee", ""))
+    rep.ob(R, "scan", gu >= 20, "%d rubato bodies / %d resolved call sites scanned (positive control: %d get_unchecked call sites seen, expected >= 20); no uninitialised-memory API is used" % (nb, nc, gu), "src/")
+
+
+def rule_own_memory(rep):
+    """The unchecked accesses stay inside the instance's own buffers: an out-of-bounds `get_unchecked` read returns whatever lives next to the
+    buffer on the heap - other resamplers' data, other threads' data - and the output stops being a function of this instance's history.
+    The memory-safety rules of C03 for the two polynomial resamplers (the only code that indexes without a check or an assertion) are
+    necessary conditions here."""
+    import asyncmodel
+    import C03
+    import C08
+    import shares
+    facts = rep.ctx.facts
+    for t in ("FastFixedIn", "FastFixedOut"):
+        def one(rep, t=t):
+            m = asyncmodel.extract(facts, t)
+            C03.rule_chan(rep, t, m)
+            C03.rule_outwrite(rep, t, m)
+            C03.rule_alloc(rep, t, m)
+            if t == "FastFixedIn":
+                C03.rule_margin(rep, t, m)
+                C03.rule_history(rep, t, m)
+        rep.guarded("R-C03-chan", one)
+    rep.guarded("R-C03-window", C08.rule_window, "R-C03-window")
+    shares.provision(rep, ("FastFixedOut",), "an under-provisioned call reads past the frames it was given")
+    rep.floor("R-C03-chan", 13)
+    rep.floor("R-C03-outwrite", 10)
+    rep.floor("R-C03-alloc", 2)
+    rep.floor("R-C03-margin", 1 + 5)
+    rep.floor("R-C03-history", 1)
+    rep.floor("R-C03-window", 10)
+    rep.clause("R-C03-chan / -outwrite / -alloc / -margin / -history / -window / R-C06-provision (polynomial types)",
+               "every get_unchecked access of FastFixedIn / FastFixedOut stays inside the instance's own buffers (shared with C03; the fixed-input margin and history defects recorded there "
+               "are recorded here as well: an out-of-bounds read returns other instances' memory)")
+
+
 def run(rep):
     ctx = rep.ctx
     facts = ctx.facts
@@ -178,6 +250,10 @@ def run(rep):
     rep.guarded("R-C18-statics", rule_statics, doc)
     rep.guarded("R-C18-ambient", rule_ambient, doc, pdoc)
     rep.guarded("R-C18-ownership", rule_ownership, pdoc)
+    rep.guarded("R-C18-uninit", rule_uninit, pdoc)
+    rep.floor("R-C18-uninit", 1)
+    rep.clause("R-C18-uninit", "no rubato body obtains uninitialised or reinterpreted memory (set_len over spare capacity, MaybeUninit, raw allocation, transmute, from_raw_parts): every buffer element is written by this instance before it can be read")
+    rule_own_memory(rep)
     if ctx.tier == "thorough":
         rep.guarded("R-C18-send", rule_send)
         rep.floor("R-C18-send", 5)
